@@ -195,6 +195,10 @@ def main():
         f.write(',\n'.join(rows))
         f.write('\n]\n\n')
         f.write('RegAmbiguous == {%s}\n' % ', '.join('"%s"' % n for n in sorted(ambiguous)))
+        # names that bound a reserved range (gABI: "values in this inclusive range are reserved for ..."; DWARF: lo_user/hi_user):
+        # they are not names OF a code - a code that also has a proper name is reported under the proper name
+        pat = re.compile(r'_(LOOS|HIOS|LOPROC|HIPROC|LOUSER|HIUSER|LORESERVE|HIRESERVE|LOSUNW|HISUNW|VALRNGLO|VALRNGHI|ADDRRNGLO|ADDRRNGHI|lo_user|hi_user)$')
+        f.write('RegMarkers == {%s}\n' % ', '.join('"%s"' % n for n in sorted(names) if pat.search(n)))
         f.write('=============================================================================\n')
     print('registry: %d names (%d glibc, %d llvm, %d llvm-dwarf raw), %d ambiguous' %
           (len(names), len(g), len(l), len(d), len(ambiguous)))
